@@ -188,7 +188,11 @@ _replace_item('impl YamlSerializer/fn write_scalar_prefix_if_anchor',
     dict(src=SR, path='impl YamlSerializer/fn write_scalar_prefix_if_anchor', trusted=True, props=[],
          rewrites=[(r'-> Result<\(\)>', '-> Result<(), SerError>', 1, 'R6')],
          # assumed (its body writes `&name ` in front of a scalar when an anchor is staged): the layout hints are not touched
-         ensures=[('assumed:frame', 'final(self).depth == old(self).depth && final(self).indent_step == old(self).indent_step && final(self).in_flow == old(self).in_flow')]))
+         ensures=[('assumed:frame', '''final(self).depth == old(self).depth && final(self).indent_step == old(self).indent_step && final(self).in_flow == old(self).in_flow
+                        && final(self).pending_space_after_colon == old(self).pending_space_after_colon && final(self).pending_anchor_id is None'''),
+                  ('assumed:without_a_staged_anchor_nothing_is_written', 'old(self).pending_anchor_id is None ==> r is Ok && final(self).out.text() == old(self).out.text() && final(self).at_line_start == old(self).at_line_start'),
+                  ('assumed:a_staged_anchor_is_written_as_ampersand_name_space_in_the_middle_of_a_line', '''old(self).pending_anchor_id is Some && r is Ok && !old(self).at_line_start ==> ({ let t0 = old(self).out.text(); let t1 = final(self).out.text();
+                        t1.len() > t0.len() && t1.subrange(0, t0.len() as int) == t0 && t1[t0.len() as int] == '&' && !final(self).at_line_start })''')]))
 ITEMS += [
     dict(src=SR, path='impl YamlSerializer/fn take_flow_for_seq', props=['C20', 'C01'],
          ensures=[('C20:a_sequence_is_flow_inside_a_flow_collection_and_otherwise_exactly_when_the_flow_sequence_wrapper_staged_it',
@@ -204,13 +208,19 @@ ITEMS += [
          canaries=['C20:a_mapping_is_flow_inside_a_flow_collection_and_otherwise_exactly_when_the_flow_mapping_wrapper_staged_it']),
     dict(src=SR, path='impl Serializer for &mut YamlSerializer/fn serialize_seq', id='YamlSerializer::serialize_seq#flow_open', props=['C20', 'C12', 'C01'],
          impl_header="impl<'b> YamlSerializer<'b>",
-         fragment=r'self\.write_scalar_prefix_if_anchor\(\)\?;.*?Ok\(SeqSer \{[^}]*\}\)', fragment_flags='S',
+         fragment=r'(?<=if flow \{).*?Ok\(SeqSer \{[^}]*\}\)', fragment_flags='S',
          wrapper="fn seq_open_flow<'a>(&'a mut self, _len: Option<usize>) -> Result<SeqSer<'a, 'b>, SerError> { {FRAG} }",
          requires=[('indent_fits', 'old(self).indent_step * old(self).depth <= usize::MAX')],
-         proofs=[dict(at='start', text='reveal_strlit("[");')],
+         proofs=[dict(at='start', text='reveal_strlit("[");'), dict(at='start', ghost=True, text='let ghost t0 = self.out.text();'),
+                 dict(after_re=r'self\.write_space_if_pending\(\)\?;', ghost=True, text='let ghost t_mid = self.out.text();'),
+                 dict(before_re=r'self\.out\.write_str\("\["\)\?;', text='''if old(self).pending_space_after_colon && !old(self).at_line_start && t_mid == t0.push(' ') {
+                      let t2 = self.out.text(); if t2 != t_mid { assert(t2.subrange(0, t_mid.len() as int)[t0.len() as int] == t2[t0.len() as int]); } }''')],
          ensures=[('C20:a_flow_sequence_opens_with_its_bracket_in_the_middle_of_a_line_and_expects_its_first_item',
                    '''r is Ok ==> ({ let q = r->Ok_0; let t = q.ser.out.text(); t.len() > 0 && t.last() == '[' && q.flow && q.first && !q.ser.at_line_start
-                        && !q.ser.pending_space_after_colon })''')],
+                        && !q.ser.pending_space_after_colon })'''),
+                  ('C20:the_space_after_the_colon_of_the_enclosing_key_comes_before_everything_a_flow_sequence_writes_anchor_included',
+                   '''r is Ok && old(self).pending_space_after_colon && !old(self).at_line_start ==> ({ let t0 = old(self).out.text(); let t1 = r->Ok_0.ser.out.text();
+                        t1.len() > t0.len() && t1[t0.len() as int] == ' ' })''')],
          canaries=['C20:a_flow_sequence_opens_with_its_bracket_in_the_middle_of_a_line_and_expects_its_first_item']),
     dict(src=SR, path='impl SerializeSeq for SeqSer/fn serialize_element', id='SeqSer::serialize_element#flow_comma', props=['C20', 'C12', 'C01'],
          impl_header="impl<'a, 'b> SeqSer<'a, 'b>",
@@ -227,7 +237,7 @@ ITEMS += [
          requires=[('indent_fits', 'old(self).ser.indent_step * old(self).depth <= usize::MAX')],
          proofs=[dict(at='start', text='reveal_strlit("- ");')],
          ensures=[('C12:the_first_dash_of_a_sequence_in_mapping_value_position_starts_a_line_of_its_own',
-                   '''r is Ok && old(self).first && old(self).ser.pending_space_after_colon && !old(self).ser.at_line_start && !old(self).ser.pending_inline_map && old(self).ser.doc_started
+                   '''r is Ok && old(self).first && old(self).ser.pending_space_after_colon && !old(self).ser.at_line_start && old(self).ser.doc_started
                         ==> final(self).ser.out.text() =~= old(self).ser.out.text().push('\\n') + spaces(old(self).ser.indent_step * old(self).depth) + seq!['-', ' ']'''),
                   ('C12:every_later_dash_starts_at_the_column_of_the_sequence',
                    '''r is Ok && !old(self).first && old(self).ser.at_line_start && old(self).ser.doc_started
@@ -246,13 +256,19 @@ ITEMS += [
     dict(src=SR, path='struct MapSer'),
     dict(src=SR, path='impl Serializer for &mut YamlSerializer/fn serialize_map', id='YamlSerializer::serialize_map#flow_open', props=['C20', 'C12', 'C01'],
          impl_header="impl<'b> YamlSerializer<'b>",
-         fragment=r'self\.write_scalar_prefix_if_anchor\(\)\?;.*?Ok\(MapSer \{[^}]*\}\)', fragment_flags='S',
+         fragment=r'(?<=if flow \{).*?Ok\(MapSer \{[^}]*\}\)', fragment_flags='S',
          wrapper="fn map_open_flow<'a>(&'a mut self, _len: Option<usize>) -> Result<MapSer<'a, 'b>, SerError> { {FRAG} }",
          requires=[('indent_fits', 'old(self).indent_step * old(self).depth <= usize::MAX')],
-         proofs=[dict(at='start', text='reveal_strlit("{");')],
+         proofs=[dict(at='start', text='reveal_strlit("{");'), dict(at='start', ghost=True, text='let ghost t0 = self.out.text();'),
+                 dict(after_re=r'self\.write_space_if_pending\(\)\?;', ghost=True, text='let ghost t_mid = self.out.text();'),
+                 dict(before_re=r'self\.out\.write_str\("\{"\)\?;', text='''if old(self).pending_space_after_colon && !old(self).at_line_start && t_mid == t0.push(' ') {
+                      let t2 = self.out.text(); if t2 != t_mid { assert(t2.subrange(0, t_mid.len() as int)[t0.len() as int] == t2[t0.len() as int]); } }''')],
          ensures=[('C20:a_flow_mapping_opens_with_its_brace_in_the_middle_of_a_line_and_expects_its_first_entry',
                    '''r is Ok ==> ({ let q = r->Ok_0; let t = q.ser.out.text(); t.len() > 0 && t.last() == '{' && q.flow && q.first && !q.ser.at_line_start
-                        && !q.ser.pending_space_after_colon && !q.inline_value_start && !q.align_after_dash })''')],
+                        && !q.ser.pending_space_after_colon && !q.inline_value_start && !q.align_after_dash })'''),
+                  ('C20:the_space_after_the_colon_of_the_enclosing_key_comes_before_everything_a_flow_mapping_writes_anchor_included',
+                   '''r is Ok && old(self).pending_space_after_colon && !old(self).at_line_start ==> ({ let t0 = old(self).out.text(); let t1 = r->Ok_0.ser.out.text();
+                        t1.len() > t0.len() && t1[t0.len() as int] == ' ' })''')],
          canaries=['C20:a_flow_mapping_opens_with_its_brace_in_the_middle_of_a_line_and_expects_its_first_entry']),
     dict(src=SR, path='impl Serializer for &mut YamlSerializer/fn serialize_map', id='YamlSerializer::serialize_map#block_open', props=['C12', 'C20', 'C01'],
          impl_header="impl<'b> YamlSerializer<'b>",
@@ -406,7 +422,9 @@ ITEMS += [
          impl_header="impl<'b> YamlSerializer<'b>",
          fragment=r'(?<=value: &T,\n    \) -> Result<\(\)> \{).*(?=\}\s*$)', fragment_flags='S',
          wrapper="fn newtype_variant_whole(&mut self, variant: &'static str, value: &SerVal) -> Result<(), SerError> { {FRAG} }",
-         pre_rewrites=[(r'value\.serialize\(&mut \*self\)', 'ser_value(value, self)', None, 'R8')],
+         pre_rewrites=[(r'value\.serialize\(&mut \*self\)', 'ser_value(value, self)', None, 'R8'),
+                       (r'scalar_key_to_string\(variant, self\.yaml_12\)\?', 'key_text_of(variant, self.yaml_12)?', None, 'R8'),
+                       (r'write_str\(&name\)', 'write_str(name.as_str())', None, 'R8')],
          requires=[('assumed:nesting_depth_below_usize_max', '''old(self).depth < usize::MAX - 1 && (old(self).after_dash_depth is Some ==> old(self).after_dash_depth->0 < usize::MAX - 1)
                         && (old(self).current_map_depth is Some ==> old(self).current_map_depth->0 < usize::MAX - 1)'''),
                    ('indent_fits', '''old(self).indent_step * (old(self).depth + 1) <= usize::MAX
@@ -414,8 +432,8 @@ ITEMS += [
          proofs=[dict(at='start', ghost=True, text='let ghost t0 = self.out.text(); let ghost pq = pq_text(self.quote_all, self.yaml_12, self.in_flow, variant@);'),
                  dict(at='start', text='''reveal_strlit("{"); reveal_strlit("}"); reveal_strlit(": "); reveal_strlit(":");
                       let st = self.indent_step as int; let d0 = self.depth as int; assert(st * d0 <= st * (d0 + 1)) by(nonlinear_arith) requires st >= 0, d0 >= 0;'''),
-                 dict(before_re=r'ser_value\(value, self\)\?;', label='C20:a_newtype_variant_inside_a_flow_collection_is_a_flow_mapping_of_one_entry_brace_name_colon_space',
-                      text="assert(self.out.text() =~= (if old(self).pending_space_after_colon { t0.push(' ') } else { t0 }).push('{') + pq + seq![':', ' ']);"),
+                 dict(before_re=r'ser_value\(value, self\)\?;', label='C20:a_newtype_variant_inside_a_flow_collection_is_a_flow_mapping_of_one_entry_brace_name_by_the_key_rules_colon_space',
+                      text="assert(self.out.text() =~= (if old(self).pending_space_after_colon { t0.push(' ') } else { t0 }).push('{') + key_text(variant@, old(self).yaml_12) + seq![':', ' ']);"),
                  dict(after_re=r'ser_value\(value, self\)\?;', ghost=True, text='let ghost t_mid = self.out.text();'),
                  dict(before_re=r'return Ok\(\(\)\);', label='C20:the_flow_mapping_of_a_newtype_variant_is_closed_right_after_its_value',
                       text="assert(self.out.text() =~= t_mid.push('}'));"),
@@ -438,6 +456,8 @@ ITEMS += [
          impl_header="impl<'b> YamlSerializer<'b>",
          fragment=r'(?<=_len: usize,\n    \) -> Result<Self::SerializeStructVariant> \{).*(?=\}\s*$)', fragment_flags='S',
          wrapper="fn struct_variant_whole<'a>(&'a mut self, variant: &'static str, _len: usize) -> Result<StructVariantSer<'a, 'b>, SerError> { {FRAG} }",
+         pre_rewrites=[(r'scalar_key_to_string\(variant, self\.yaml_12\)\?', 'key_text_of(variant, self.yaml_12)?', None, 'R8'),
+                       (r'write_str\(&name\)', 'write_str(name.as_str())', None, 'R8')],
          requires=[('assumed:valid_options', 'old(self).indent_step >= 1'),
                    ('assumed:nesting_depth_below_usize_max', '''old(self).depth < usize::MAX - 3 && (old(self).after_dash_depth is Some ==> old(self).after_dash_depth->0 < usize::MAX - 3)
                         && (old(self).current_map_depth is Some ==> old(self).current_map_depth->0 < usize::MAX - 3)'''),
@@ -446,9 +466,9 @@ ITEMS += [
          proofs=[dict(at='start', ghost=True, text='let ghost t0 = self.out.text(); let ghost pq = pq_text(self.quote_all, self.yaml_12, self.in_flow, variant@);'),
                  dict(at='start', text='''reveal_strlit("{"); reveal_strlit(": {"); reveal_strlit(":\\n");
                       let st = self.indent_step as int; let d0 = self.depth as int; assert(st * d0 <= st * (d0 + 1)) by(nonlinear_arith) requires st >= 0, d0 >= 0;''')],
-         ensures=[('C20:a_struct_variant_inside_a_flow_collection_opens_a_flow_mapping_whose_one_value_is_a_flow_mapping',
+         ensures=[('C20:a_struct_variant_inside_a_flow_collection_opens_a_flow_mapping_named_by_the_key_rules_whose_one_value_is_a_flow_mapping',
                    '''r is Ok && old(self).in_flow > 0 ==> ({ let q = r->Ok_0; q.flow && q.first
-                        && q.ser.out.text() =~= (if old(self).pending_space_after_colon { t0_of(old(self)).push(' ') } else { t0_of(old(self)) }).push('{') + pq_of(old(self), variant@) + seq![':', ' ', '{'] })'''),
+                        && q.ser.out.text() =~= (if old(self).pending_space_after_colon { t0_of(old(self)).push(' ') } else { t0_of(old(self)) }).push('{') + key_text(variant@, old(self).yaml_12) + seq![':', ' ', '{'] })'''),
                   ('C12:a_struct_variant_in_value_position_starts_a_line_of_its_own_and_its_fields_are_one_level_deeper_than_its_name',
                    '''r is Ok && old(self).in_flow == 0 && old(self).pending_space_after_colon ==> ({ let q = r->Ok_0; let cm = (match old(self).current_map_depth { Some(d) => d, None => old(self).depth });
                         !q.flow && q.first && q.depth == cm + 2 && q.ser.at_line_start && !q.ser.pending_space_after_colon
@@ -487,4 +507,39 @@ ITEMS += [
                   ('C12:after_a_block_tuple_variant_no_dash_hint_is_left_for_the_next_sibling',
                    'r is Ok && !flow ==> final(ser).last_value_was_block && !final(ser).pending_inline_map && final(ser).after_dash_depth is None && !final(ser).inline_map_after_dash')],
          canaries=['C20:a_flow_tuple_variant_closes_its_bracket_and_its_brace_and_a_block_one_writes_nothing_at_its_end']),
+]
+
+# ---- the Commented wrapper (C20): the arm of TupleSer::serialize_field that stages the comment around the value.  The sanitising statement itself
+# is under contract in unit `quoting` (TupleSer::serialize_field#stage_comment, proved + bounded harness); here its result is assumed break-free. ----
+ITEMS += [
+    dict(src=SR, path='impl SerializeTupleStruct for TupleSer/fn serialize_field', id='TupleSer::serialize_field#commented_value', props=['C20', 'C01'],
+         impl_header="impl<'a, 'b> TupleSer<'a, 'b>",
+         fragment=r'let comment = self\.comment_text\.take\(\)\.unwrap_or_default\(\);\s*if self\.ser\.in_flow == 0 \{.*?\} else \{.*?\}', fragment_flags='S',
+         wrapper='fn commented_value(&mut self, value: &SerVal) -> Result<(), SerError> { {FRAG} Ok(()) }',
+         pre_rewrites=[(r'self\.comment_text\.take\(\)\.unwrap_or_default\(\)', 'take_comment(&mut self.comment_text)', 1, 'R8'),
+                       (r'!comment\.is_empty\(\)', '!string_is_empty(&comment)', 1, 'R8'),
+                       (r"comment\.replace\(\[[^\]]*\], \" \"\)", 'sanitize_comment(&comment)', 1, 'R8'),
+                       (r'value\.serialize\(&mut \*self\.ser\)', 'ser_value(value, &mut *self.ser)', None, 'R8')],
+         proofs=[dict(before_re=r'ser_value\(value, &mut \*self\.ser\)\?;', nth=1, label='C20:a_comment_is_staged_for_the_value_only_after_every_line_break_in_it_has_been_neutralised',
+                      text='assert(self.ser.pending_inline_comment is Some ==> break_free(self.ser.pending_inline_comment->0@));'),
+                 dict(before_re=r'ser_value\(value, &mut \*self\.ser\)\?;', nth=2, label='C20:inside_a_flow_collection_no_comment_is_staged',
+                      text='assert(self.ser.pending_inline_comment == old(self).ser.pending_inline_comment);')],
+         requires=[('nothing_staged_before', 'old(self).ser.pending_inline_comment is None')],
+         ensures=[('C20:a_staged_comment_never_outlives_the_value_it_belongs_to', 'r is Ok && old(self).ser.in_flow == 0 ==> final(self).ser.pending_inline_comment is None')],
+         canaries=['C20:a_staged_comment_never_outlives_the_value_it_belongs_to']),
+]
+
+# ---- F42: the null written for a dangling weak reference (TupleSer, AnchorWeak kind, field 1) ----
+ITEMS += [
+    dict(src=SR, path='impl SerializeTupleStruct for TupleSer/fn serialize_field', id='TupleSer::serialize_field#dangling_weak_null', props=['C12', 'C01'],
+         impl_header="impl<'a, 'b> TupleSer<'a, 'b>",
+         fragment=r'(?<=if !self\.weak_present \{).*?self\.skip_third = true;', fragment_flags='S',
+         wrapper='fn dangling_weak_null(&mut self) -> Result<(), SerError> { {FRAG} Ok(()) }',
+         requires=[('indent_fits', 'old(self).ser.indent_step * old(self).ser.depth <= usize::MAX')],
+         proofs=[dict(at='start', ghost=True, text='let ghost t0 = self.ser.out.text();'),
+                 dict(at='start', text='reveal_strlit("null");'),
+                 dict(before_re=r'self\.ser\.write_end_of_scalar\(\)\?;', label='C12:the_null_of_a_dangling_weak_reference_in_value_position_is_separated_from_the_colon_by_a_space',
+                      text='''assert(!old(self).ser.at_line_start ==> self.ser.out.text() =~= (if old(self).ser.pending_space_after_colon { t0.push(' ') } else { t0 }) + null_word());
+                              assert(!self.ser.pending_space_after_colon);''')],
+         ensures=[('the_value_field_is_skipped', 'r is Ok ==> final(self).skip_third')]),
 ]
